@@ -12,7 +12,7 @@ CONSTANTS
   MaxOps = 2
   MaxRetry = 1
   ContentSel = {1, 2, 3, 4, 5, 6, 7, 8, 9, 10, 11, 12}
-  ProfileSel = {1, 2, 3, 4, 7, 8}
+  ProfileSel = {1, 2, 3, 4, 7, 8, 9, 10, 11}
   UseJson = TRUE
   BoundarySel = {1, 2, 3, 4, 5}
   PreSel = {1, 2, 3}
